@@ -7,6 +7,7 @@
   released), a peer inside is served until it departs.
 -/
 import Ps3.Base.Bytes
+import Ps3.Gen.Facts
 namespace Ps3.Admission
 
 structure Pending where
@@ -47,7 +48,10 @@ def step (s : St) : Ev → St
     drain (s.queue.length + 1) s
   | .depart id =>
     if s.served.contains id then
-      let s := { s with served := s.served.filter (· != id) }
+      -- the slot comes back when the limiter's connection wrapper is closed: `defer conn.Close()` in
+      -- serveConn, unconditionally (F-shape fact regenerated from the source); were the close to depend on
+      -- anything else, the model would not know the slot to be released
+      let s := { s with served := if Gen.server_connCloseDeferred then s.served.filter (· != id) else s.served }
       drain (s.queue.length + 1) s
     else
       { s with queue := s.queue.map (fun p => if p.id == id then { p with alive := false } else p) }
